@@ -23,8 +23,8 @@ ALL = {
           "Coq proof (engine invariant + window-lookup lemma) + differential correspondence + input-level oracle",
           "plain integer matrices in the modelled core; time-dependent travel enters through C17's model; triangle-inequality flag (API only) not modelled."),
  "C03": E("proof", "Coq theorems (Props/C03.v): every stop on at most one route, routes well shaped, every unit whole and on one route, on all reachable states. " + ENGINE_TIE,
-          "Coq proof (invariant) + correspondence + oracle (precedence order, direct adjacency, wholeness on implementation snapshots)",
-          "order within a unit / direct adjacency / groups / alternates / fixed stops are decided by the oracle on implementation snapshots and solver output, not yet by theorems."),
+          "Coq proof (invariants: exactly once, whole and together, ordered under order-respecting moves) + correspondence + oracle (precedence order, direct adjacency, wholeness on implementation snapshots and solver output, join-shaped units)",
+          "order and direct adjacency inside a unit: Props/Order.v (order-respecting moves - in particular every move the generator model produces - keep every precedence arc ordered and direct successors adjacent; needed hypotheses shown by counterexamples); stop groups: Props/Units.v; alternates and fixed stops are decided by the oracles on implementation snapshots and solver output only."),
  "C04": E("proof", "Coq theorems (Props/C04.v): in every reachable state the cached cells of every route equal the independent forward pass from_scratch over the route's stop sequence; history independence; the forward-walk equations in terms of the input. " + ENGINE_TIE,
           "Coq proof (refinement: incremental propagation = from-scratch recomputation, induction over histories) + correspondence + oracle from the input"),
  "C05": E("proof", "Coq theorems (Props/C05.v): total = sum of terms, terms = recomputation from routes, unplanned penalty = penalties of exactly the units not on routes, history independence. " + ENGINE_TIE,
@@ -52,11 +52,11 @@ ALL = {
  "C14": E("proof", "Coq theorems (Props/C14.v): the lockset checker is complete for its definition; mutex exclusion. The checker is evaluated (vm_compute) on the skeletons regenerated from /repo each run: every shared variable with conflicting accesses and no common mutex is reported; listed ones are known findings, any other is a violation. sync.Pool buffers: Props/Pool.v (an accepted borrower uses the buffer only between Get and Put on every path; under that discipline concurrent borrowers never hold or use the same buffer), the borrow programs of all pool users are regenerated from /repo and checked (Oblig/O_C14_pool.v). Go race detector: thorough tier, and as the search for a schedule when an obligation breaks.",
           "Coq-evaluated lockset discipline on regenerated skeletons + proof of checker completeness / mutex exclusion",
           "partial: happens-before through channels is not credited; callee-internal races only via the race detector."),
- "C15": E("proof", "Coq theorems (Props/C15.v) for ALL schedules and budgets of the parallel-solver LTS: performed <= budget, reported = performed, parallelism bound, closed is final, every state can close within a bounded number of steps after cancellation, zero budget, barrier. Tie: the REAL parallel solver (NewSkeletonParallelSolver) with scripted factories vs the extracted SolverLoop.pinit/prun (iterations granted per started solver, counted at End and in run.Data, solutions delivered); protocol projection of the regenerated skeletons; option grid on the real solver with event counts and close times.",
+ "C15": E("proof", "Coq theorems (Props/C15.v) for ALL schedules and budgets of the parallel-solver LTS: performed <= budget, reported = performed, parallelism bound, closed is final, every state can close within a bounded number of steps after cancellation, zero budget, barrier. Tie: the REAL parallel solver (NewSkeletonParallelSolver) with scripted factories vs the extracted SolverLoop.pinit/prun on one canonical schedule (iterations granted per started solver, counted at End and in run.Data, solutions delivered) - Props/Grants.v proves these observables independent of the schedule; protocol projection of the regenerated skeletons; option grid on the real solver with event counts and close times.",
           "Coq proof (invariants over the LTS) + regenerated-skeleton obligations + option-grid runs",
           "partial: wall-clock 'shortly after' checked with slack; Go timers/scheduler not modelled."),
- "C16": E("proof", "Coq theorems (Props/C16.v): on well-dimensioned inputs the modelled engine core never falls back to a lookup default: every stop on every reachable route is a declared stop, every matrix lookup is in range. PARTIAL: the reflection-heavy decoding/validation glue of the factory is covered only by the differential crash search (corpus of past crashes, structured full-feature stream, malformed stream through NewModel / NewSolution / ParallelSolver.Solve), which is not a proof.",
-          "Coq proof for the modelled core + crash search (structured and malformed JSON streams) on the implementation",
+ "C16": E("proof", "Coq theorems (Props/C16.v): on well-dimensioned inputs the modelled engine core never falls back to a lookup default: every stop on every reachable route is a declared stop, every matrix lookup is in range. PARTIAL: the reflection-heavy decoding/validation glue of the factory is covered only by the differential crash search (corpus of past crashes; structured full-feature stream; precedence-DAG stream; no-mix stream; malformed stream; all through NewModel / NewSolution / ParallelSolver.Solve; and models assembled through the public Go API with vehicles sharing vehicle types and sparse per-type settings), which is not a proof.",
+          "Coq proof for the modelled core + crash search (structured, malformed and API-built model streams) on the implementation",
           "partial: factory glue, API-built models and features outside the modelled core are searched, not proved."),
  "C18": E("proof", "Coq theorems (Props/C18.v): on every reachable state, executing a move and un-planning the unit again restores routes, cached values, scores exactly and collections as sets, and the un-plan cannot fail; a probe sequence preserves the solution. Tie: check.SolutionCheck at each verbosity on states of generated histories: the snapshot afterwards must equal the model's unchanged state; units reported plannable are re-planned on a copy taken before the check; a nested stage with stop groups and user constraints whose estimates are optimistic (the check then executes best moves that fail).",
           "Coq proof (execute-then-unplan = identity on observables) + differential snapshots around check.SolutionCheck",
